@@ -1,28 +1,40 @@
 """C20 - tag authentication and MAC-protected reads cannot be fooled.
 
-L1: theorems of NfcVerif.Props.C20: DES / two-key triple DES are bijections
-    (generic Feistel argument, permutation tables by a 64-case `decide`), the
-    FeliCa Lite MAC over any cipher that is injective on blocks distinguishes
-    messages that differ in exactly one 8-byte group, read_with_mac returns
-    data only together with its MAC under the session key, a response whose
-    data (one group) or MAC field was modified is refused, authenticate
-    succeeds against the tag of the user manual holding the provisioned key
-    (Lite, Lite-S external authentication, NTAG21x), NTAG21x authentication
-    is exact.
-L2: the Lean DES / triple DES / generateMac against pyDes and
-    FelicaLite.generate_mac and against the independent Python DES of
-    sims/auth_des.py; the Lean reader model against the REAL FelicaLite /
-    FelicaLiteS / NTAG21x objects talking to simulated tags with responses
-    modified in transit (every single bit, random multi-bit, substitutions,
-    block swaps, truncation), deterministic challenge (os.urandom as seen
-    from tt3_sony is replaced); the Lean tag mirror against the Python tag.
-L3: oracle on the real code against the simulated tags: right key -> True,
-    wrong key -> False, protect(pw) then authenticate(pw) -> True / other
-    password -> False, key laid out on the tag as the manual wants it, no
-    modification of data or MAC of a MAC-protected read is ever returned as
-    data, no internal exception leaves authenticate()/read_with_mac().
+L1: theorems of NfcVerif.Props.C20.  Single call: DES / two-key triple DES are bijections (generic Feistel
+    argument, permutation tables by a 64-case `decide`), the FeliCa Lite MAC over any cipher that is injective on
+    blocks distinguishes messages that differ in exactly one 8-byte group, read_with_mac returns data only together
+    with its MAC under the session key, a response whose data (one group) or MAC field was modified is refused,
+    authenticate succeeds against the tag of the user manual holding the provisioned key (Lite, Lite-S external
+    authentication, NTAG21x), NTAG21x authentication is exact (answers of any length).  Histories (many calls on one
+    tag object, any air interface as a state machine): every session of every history is decided by ITS challenge
+    and the frames that arrive in it, authenticate never reads the object's attributes, every read_with_mac of any
+    number of blocks is one command whose MAC covers all returned data, write_with_mac reads WCNT from the card in
+    every call, mutual authentication succeeds in every state of the stateful card (any write counter), hence in
+    every session of a history and around a write_with_mac, a failed authentication leaves no session (repaired
+    code) / the stale session counter-example (code as found).
+L2: the Lean DES / triple DES / generateMac against pyDes and FelicaLite.generate_mac and against the independent
+    Python DES of sims/auth_des.py; the Lean reader model against the REAL FelicaLite / FelicaLiteS / NTAG21x objects
+    talking to simulated tags with responses modified in transit (every single bit, random multi-bit, substitutions,
+    block swaps, truncation, PWD_AUTH answers of every length), deterministic challenge (os.urandom as seen from
+    tt3_sony is a recorded queue); HISTORIES (c20_hist.py): sequences of authenticate / read_with_mac /
+    write_with_mac / plain reads and writes / protect / card exchanged, on the untouched channel and with one frame
+    modified, lost (also two and three times in a row: the retry loop) or replaced by a frame of another session,
+    on the real object against the stateful Python card and on NfcVerif.AuthHist.run against the Lean card - every
+    outcome, every command frame sent, the final card state, _authenticated, _sk, _iv are compared; the Lean card
+    against the Python card on single commands; the Lean tag MAC mirror against the Python tag.
+L3: oracle on the real code against the simulated tags: right key -> True, wrong key -> False in EVERY session of a
+    history (the stateful card advances WCNT with every write and checks MAC_A), one fresh 16 octet os.urandom
+    challenge per authenticate written to RC as it is and never reused (also with the real entropy source), a device
+    without the key that replays the frames of an earlier session is refused, protect(pw) then authenticate(pw) ->
+    True / other password -> False, key laid out on the tag as the manual wants it, no modification of data or MAC
+    of a MAC-protected read of 0..6 blocks in any response of that read is ever returned as data, write_with_mac
+    after an authentication is accepted by the card whatever was written before, no internal exception leaves
+    authenticate()/read_with_mac()/write_with_mac()/protect(), data is not returned under the session of an
+    authentication that was followed by a failed one (open finding stale-session-after-failed-auth).
+    Whatever the code does that the case code cannot interpret is reported as a failing input of that case (Guard).
 """
 import logging
+import traceback
 
 from common import Model, hx, exc_name, INTERNAL
 
@@ -48,21 +60,44 @@ THEOREMS = [
     "NfcVerif.C20.protect_empty_password",
     "NfcVerif.C20.lite_s_write_mac_accepted",
     "NfcVerif.C20.auth_sound_partial",
+    # histories: many calls on one tag object (Model/AuthHist.lean, Model/AuthCard.lean)
+    "NfcVerif.C20.session_sound_every_history",
+    "NfcVerif.C20.challenge_written_is_session_challenge",
+    "NfcVerif.C20.session_sound_every_history_lite_s",
+    "NfcVerif.C20.auth_verdict_independent_of_object_state",
+    "NfcVerif.C20.read_covered_every_history",
+    "NfcVerif.C20.write_counter_read_in_every_write",
+    "NfcVerif.C20.failed_auth_leaves_no_session_repaired",
+    "NfcVerif.C20.stale_session_counterexample",
+    "NfcVerif.C20.stale_session_repaired_example",
+    "NfcVerif.C20.mutual_auth_complete_every_card_state",
+    "NfcVerif.C20.every_session_complete",
+    "NfcVerif.C20.auth_write_auth_complete",
+    "NfcVerif.C20.short_frame_refused",
+    "NfcVerif.C20.ntag_auth_true_length",
 ]
 
 
-class FakeOs(object):
-    """stands in for the name `os` inside nfc.tag.tt3_sony: deterministic challenge"""
+class Guard(object):
+    """one explored case: whatever nfcpy does that the oracle / tie code did not foresee (an exception in the
+    harness code that handles its answers, a return value of another type ...) is a failing input of that case,
+    never the end of the exploration"""
 
-    def __init__(self):
-        self.next = []
-        self.given = []
+    def __init__(self, ck, section, info=None):
+        self.ck, self.section, self.info = ck, section, info
 
-    def urandom(self, n):
-        rc = self.next.pop(0)
-        assert len(rc) == n
-        self.given.append(rc)
-        return rc
+    def __enter__(self):
+        return self
+
+    def __exit__(self, et, ev, tb):
+        if et is None or not issubclass(et, Exception) or et.__name__ == "Infra":
+            return False
+        frames = ["%s:%d %s" % (f.filename.split("/")[-1], f.lineno, f.name) for f in traceback.extract_tb(tb)[-4:]]
+        info = self.info() if callable(self.info) else (self.info or {})
+        self.ck.fail("unforeseen-behaviour-" + self.section,
+                     "%s: the code under test behaved in a way the check of this case cannot interpret: %s: %s (%s)"
+                     % (self.section, et.__name__, ev, frames[-1]), dict(info, exception=repr(ev), frames=frames))
+        return True
 
 
 def outcome(fn, show):
@@ -113,24 +148,37 @@ def run(ck):
 
     rng = ck.rng
     T = ck.thorough
-    ck.rule = ("cases: (function, key/password material, challenge, block selection, modification in transit); cipher and MAC "
-               "cases count as non-trivial when data is non-empty; protocol cases when a response was modified or the key "
-               "differs from the tag's; distinct by hash of the canonical case")
+    ck.rule = ("cases: (function, key/password material, challenge, block selection, modification in transit) and histories "
+               "(product, initial card incl. write counter and MC, sequence of calls authenticate / read_with_mac / "
+               "write_with_mac / plain read and write / protect / card exchanged, one challenge per authentication, "
+               "channel rule: bit flip, frame lost, frame of another session replayed); cipher and MAC cases count as "
+               "non-trivial when data is non-empty; protocol cases when a response was modified or the key differs from the "
+               "tag's; histories always; distinct by hash of the canonical case")
     ck.assumptions += [
         "cryptography, NOT proved: 3DES-CBC-MAC unforgeability - that no party without the card key produces an accepted "
-        "MAC, that messages differing in more than one 8-byte group do not collide (64-bit MAC collisions exist), and "
-        "therefore 'authenticate is true exactly when the tag holds the key' in the direction true => key held; proved "
-        "are completeness, exact comparison of all MAC/PACK octets, and detection of changes confined to one group",
+        "MAC, that messages differing in more than one 8-byte group do not collide (64-bit MAC collisions exist), that "
+        "MACs under the session keys of two different challenges differ, and therefore 'authenticate is true exactly "
+        "when the tag holds the key' in the direction true => key held and 'a replayed response of another session is "
+        "refused'; proved are completeness (in every card state), exact comparison of all MAC/PACK octets, detection of "
+        "changes confined to one group, and that every session is decided by its own challenge and the frames that "
+        "arrive in it; the oracle exercises the rest (devices without the key, replays, multi-group changes)",
+        "protocol, not code: the FeliCa Lite MAC covers the block DATA, not the block numbers and not a counter - "
+        "within ONE session the answer to another read (or an earlier answer to the same read), and the answer to a "
+        "read command whose block list was modified on its way to the card, verify; such substitutions are not generated "
+        "as violations (nfcpy does not use the Lite-S MAC_A read that binds block numbers)",
         "a password selects the key by its first 16 (FeliCa Lite/Lite-S) or 6 (NTAG21x) octets; 'another password' means "
         "another derived key",
-        "tag behaviour as in the FeliCa Lite / Lite-S user manuals and the NTAG21x data sheet (sims/auth_felica.py, "
-        "sims/auth_ntag.py; Lean mirror NfcVerif.Auth.LiteTag / NtagTag)",
-        "frames lost in transit (retries of send_cmd_recv_rsp / transceive) are exercised by the oracle only; the model is a "
-        "function of the frames that arrive",
+        "tag behaviour as in the FeliCa Lite / Lite-S user manuals and the NTAG21x data sheet (sims/auth_felica.py: "
+        "stateful card with RC, WCNT advanced by every accepted write, STATE, MAC_A check, MC access conditions; "
+        "sims/auth_ntag.py; Lean mirrors NfcVerif.AuthCard.Card, NfcVerif.Auth.LiteTag / NtagTag, compared on every run)",
+        "os.urandom is the entropy source of the challenge (replaced by a recorded queue inside nfc.tag.tt3_sony for the "
+        "deterministic runs; one run with the real source checks that successive challenges differ)",
+        "histories: protect() with protect_from=0 (NDEF probing by polling) and block numbers above 255 are outside the "
+        "history model; protect_from=0 is covered by the single-call oracle",
         "the model functions equal the Python functions outside the compared inputs (D-tie is a sample)",
     ]
-    ck.trusted += ["hand-written Lean models NfcVerif.Model.Des / Mac / Auth, tied by differential runs",
-                   "harness/props/c20.py, harness/sims/auth_des.py (independent DES), auth_felica.py, auth_ntag.py",
+    ck.trusted += ["hand-written Lean models NfcVerif.Model.Des / Mac / Auth / AuthCard / AuthHist, tied by differential runs",
+                   "harness/props/c20.py, c20_hist.py, harness/sims/auth_des.py (independent DES), auth_felica.py, auth_ntag.py",
                    "pyDes as the cipher nfcpy calls (compared with two other DES implementations)"]
     ck.lean("NfcVerif.Props.C20", THEOREMS)
     if T:
@@ -147,15 +195,19 @@ def run(ck):
     def rb(n):
         return bytes(rng.randrange(256) for _ in range(n))
 
-    fake_os = FakeOs()
+    from props import c20_hist as H
+    fake_os = H.DetOs()
     saved_os = tt3_sony.os
     tt3_sony.os = fake_os
     try:
         _cipher(ck, rng, T, add, rb, D, des, triple_des, ECB, CBC, tt3_sony)
         _felica(ck, rng, T, add, rb, D, F, fake_os, tt3_sony)
+        _histories(ck, rng, T, add, H, fake_os)
         _ntag(ck, rng, T, add, rb, N)
     finally:
         tt3_sony.os = saved_os
+    with Guard(ck, "challenge-entropy"):
+        _entropy(ck, F, tt3_sony)
 
     replies = model.ask_many([r[1] for r in reqs])
     per = {}
@@ -177,56 +229,59 @@ def _cipher(ck, rng, T, add, rb, D, des, triple_des, ECB, CBC, tt3_sony):
     fixed = [(bytes(8), bytes(8)), (b"\xff" * 8, b"\xff" * 8), (bytes.fromhex("133457799BBCDFF1"), bytes.fromhex("0123456789ABCDEF")),
              (bytes.fromhex("0101010101010101"), bytes.fromhex("8000000000000000"))]
     for i in range(n):
-        k, b = fixed[i] if i < len(fixed) else (rb(8), rb(8))
-        if i >= len(fixed) and i % 7 == 0:          # one-bit keys / blocks: every table entry is exercised separately
-            b = (1 << rng.randrange(64)).to_bytes(8, "big")
-        if i >= len(fixed) and i % 7 == 1:
-            k = (1 << rng.randrange(64)).to_bytes(8, "big")
-        e = des(k, ECB).encrypt(b)
-        d = des(k, ECB).decrypt(b)
-        ki, bi = int.from_bytes(k, "big"), int.from_bytes(b, "big")
-        if D.des_enc(ki, bi).to_bytes(8, "big") != e or D.des_dec(ki, bi).to_bytes(8, "big") != d:
-            ck.fail("tie:c20-des-independent", "pyDes and the independent DES differ for key %s block %s" % (k.hex(), b.hex()),
-                    {"key": k.hex(), "block": b.hex()})
-        add("des", "des.enc %s %s" % (hx(k), hx(b)), "ok " + hx(e), ("des.enc", k, b), True, "cipher:des")
-        add("des", "des.dec %s %s" % (hx(k), hx(b)), "ok " + hx(d), ("des.dec", k, b), True, "cipher:des")
-        k16 = rb(16) if i % 5 else k + k
-        add("des", "tdes.enc %s %s" % (hx(k16), hx(b)), "ok " + hx(triple_des(k16, ECB).encrypt(b)), ("tdes.enc", k16, b), True, "cipher:tdes")
-        add("des", "tdes.dec %s %s" % (hx(k16), hx(b)), "ok " + hx(triple_des(k16, ECB).decrypt(b)), ("tdes.dec", k16, b), True, "cipher:tdes")
+        with Guard(ck, 'cipher', None):
+            k, b = fixed[i] if i < len(fixed) else (rb(8), rb(8))
+            if i >= len(fixed) and i % 7 == 0:          # one-bit keys / blocks: every table entry is exercised separately
+                b = (1 << rng.randrange(64)).to_bytes(8, "big")
+            if i >= len(fixed) and i % 7 == 1:
+                k = (1 << rng.randrange(64)).to_bytes(8, "big")
+            e = des(k, ECB).encrypt(b)
+            d = des(k, ECB).decrypt(b)
+            ki, bi = int.from_bytes(k, "big"), int.from_bytes(b, "big")
+            if D.des_enc(ki, bi).to_bytes(8, "big") != e or D.des_dec(ki, bi).to_bytes(8, "big") != d:
+                ck.fail("tie:c20-des-independent", "pyDes and the independent DES differ for key %s block %s" % (k.hex(), b.hex()),
+                        {"key": k.hex(), "block": b.hex()})
+            add("des", "des.enc %s %s" % (hx(k), hx(b)), "ok " + hx(e), ("des.enc", k, b), True, "cipher:des")
+            add("des", "des.dec %s %s" % (hx(k), hx(b)), "ok " + hx(d), ("des.dec", k, b), True, "cipher:des")
+            k16 = rb(16) if i % 5 else k + k
+            add("des", "tdes.enc %s %s" % (hx(k16), hx(b)), "ok " + hx(triple_des(k16, ECB).encrypt(b)), ("tdes.enc", k16, b), True, "cipher:tdes")
+            add("des", "tdes.dec %s %s" % (hx(k16), hx(b)), "ok " + hx(triple_des(k16, ECB).decrypt(b)), ("tdes.dec", k16, b), True, "cipher:tdes")
     for i in range(3000 if T else 400):
-        nb = rng.choice([0, 1, 1, 2, 2, 3, 4, 5, 6, 9])
-        data, key, iv, flip = rb(8 * nb), rb(16), rb(8), rng.random() < 0.4
-        r = rng.random()
-        if r < 0.04:
-            data = rb(8 * nb + rng.randrange(1, 8))
-        elif r < 0.07:
-            key = rb(rng.choice([0, 8, 15, 17, 24]))
-        elif r < 0.10:
-            iv = rb(rng.choice([0, 7, 9, 16]))
-        real = outcome(lambda: gm(data, key, iv, flip), hx)
-        add("generate_mac", "mac %s %s %s %02x" % (hx(data), hx(key), hx(iv), 1 if flip else 0), real,
-            ("mac", data, key, iv, flip), len(data) > 0, "mac:%s" % ("ok" if real.startswith("ok") else real[4:]))
-        if real.startswith("ok") and len(data) >= 8 and len(key) == 16 and len(iv) == 8:
-            # independent computation (words, little endian): key words are the reversed halves
-            kb = (key[8:] + key[:8]) if flip else key
-            x = D.le(iv[::-1])
-            for j in range(0, len(data), 8):
-                x = D.tdes2_enc(int.from_bytes(kb[:8], "big"), int.from_bytes(kb[8:], "big"), x ^ D.le(data[j:j + 8]))
-            if x.to_bytes(8, "little") != bytes.fromhex(real[3:]):
-                ck.fail("mac-differs-from-manual", "generate_mac(%s,%s,%s,%s) = %s, manual gives %s"
-                        % (data.hex(), key.hex(), iv.hex(), flip, real, x.to_bytes(8, "little").hex()), {"data": data.hex(), "key": key.hex(), "iv": iv.hex(), "flip": flip})
+        with Guard(ck, 'generate-mac', None):
+            nb = rng.choice([0, 1, 1, 2, 2, 3, 4, 5, 6, 9])
+            data, key, iv, flip = rb(8 * nb), rb(16), rb(8), rng.random() < 0.4
+            r = rng.random()
+            if r < 0.04:
+                data = rb(8 * nb + rng.randrange(1, 8))
+            elif r < 0.07:
+                key = rb(rng.choice([0, 8, 15, 17, 24]))
+            elif r < 0.10:
+                iv = rb(rng.choice([0, 7, 9, 16]))
+            real = outcome(lambda: gm(data, key, iv, flip), hx)
+            add("generate_mac", "mac %s %s %s %02x" % (hx(data), hx(key), hx(iv), 1 if flip else 0), real,
+                ("mac", data, key, iv, flip), len(data) > 0, "mac:%s" % ("ok" if real.startswith("ok") else real[4:]))
+            if real.startswith("ok") and len(data) >= 8 and len(key) == 16 and len(iv) == 8:
+                # independent computation (words, little endian): key words are the reversed halves
+                kb = (key[8:] + key[:8]) if flip else key
+                x = D.le(iv[::-1])
+                for j in range(0, len(data), 8):
+                    x = D.tdes2_enc(int.from_bytes(kb[:8], "big"), int.from_bytes(kb[8:], "big"), x ^ D.le(data[j:j + 8]))
+                if x.to_bytes(8, "little") != bytes.fromhex(real[3:]):
+                    ck.fail("mac-differs-from-manual", "generate_mac(%s,%s,%s,%s) = %s, manual gives %s"
+                            % (data.hex(), key.hex(), iv.hex(), flip, real, x.to_bytes(8, "little").hex()), {"data": data.hex(), "key": key.hex(), "iv": iv.hex(), "flip": flip})
     for i in range(300 if T else 60):
-        key, rc = rb(16), rb(16)
-        real = "ok " + hx(triple_des(key, CBC, bytes(8)).encrypt(rc))
-        add("generate_mac", "sk %s %s" % (hx(key), hx(rc)), real, ("sk", key, rc), True, "mac:sessionkey")
-        # the Lean mirror of the tag against the Python tag
-        ck_block, rc_block = rb(16), rb(16)
-        data = rb(16 * rng.randrange(1, 4))
-        add("tag-mirror", "tag.mac %s %s %s" % (hx(ck_block), hx(rc_block), hx(data)), "ok " + hx(D.lite_mac(ck_block, rc_block, data)),
-            ("tag.mac", ck_block, rc_block, data), True, "mirror:mac")
-        wcnt, blk, d16 = rb(3), rng.randrange(256), rb(16)
-        add("tag-mirror", "tag.maca %s %s %s %02x %s" % (hx(ck_block), hx(rc_block), hx(wcnt), blk, hx(d16)),
-            "ok " + hx(D.lite_s_mac_a_write(ck_block, rc_block, wcnt, blk, d16)), ("tag.maca", ck_block, rc_block, wcnt, blk, d16), True, "mirror:maca")
+        with Guard(ck, 'session-key', None):
+            key, rc = rb(16), rb(16)
+            real = "ok " + hx(triple_des(key, CBC, bytes(8)).encrypt(rc))
+            add("generate_mac", "sk %s %s" % (hx(key), hx(rc)), real, ("sk", key, rc), True, "mac:sessionkey")
+            # the Lean mirror of the tag against the Python tag
+            ck_block, rc_block = rb(16), rb(16)
+            data = rb(16 * rng.randrange(1, 4))
+            add("tag-mirror", "tag.mac %s %s %s" % (hx(ck_block), hx(rc_block), hx(data)), "ok " + hx(D.lite_mac(ck_block, rc_block, data)),
+                ("tag.mac", ck_block, rc_block, data), True, "mirror:mac")
+            wcnt, blk, d16 = rb(3), rng.randrange(256), rb(16)
+            add("tag-mirror", "tag.maca %s %s %s %02x %s" % (hx(ck_block), hx(rc_block), hx(wcnt), blk, hx(d16)),
+                "ok " + hx(D.lite_s_mac_a_write(ck_block, rc_block, wcnt, blk, d16)), ("tag.maca", ck_block, rc_block, wcnt, blk, d16), True, "mirror:maca")
 
 
 # ------------------------------------------------------------------------------------------------ FeliCa Lite / Lite-S
@@ -280,181 +335,188 @@ def _felica(ck, rng, T, add, rb, D, F, fake_os, tt3_sony):
 
     # ---------------- authenticate: passwords and keys, clean channel
     for i in range(300 if T else 60):
-        lite_s = bool(i % 2)
-        key = rb(16) if i % 6 else bytes(16)
-        kind = ["right", "right-long", "wrong", "wrong-1bit", "empty", "short"][rng.randrange(6)] if i > 12 else \
-            ["right", "right-long", "wrong", "wrong-1bit", "empty", "short"][i % 6]
-        if kind == "right":
-            pw = key
-        elif kind == "right-long":
-            pw = key + rb(rng.randrange(1, 9))
-        elif kind == "wrong":
-            pw = rb(16 + rng.randrange(0, 4))
-        elif kind == "wrong-1bit":
-            b = rng.randrange(128)
-            pw = bytes(x ^ (1 << (b % 8) if j == b // 8 else 0) for j, x in enumerate(key))
-        elif kind == "empty":
-            pw = b""
-        else:
-            pw = rb(rng.randrange(1, 16))
-        if rng.random() < 0.3:
-            pw = bytearray(pw)
-        tag, air, t = fresh(lite_s, F.key_block(key))
-        rc = rb(16)
-        real = auth_real(t, pw, rc)
-        # DES ignores the least significant bit of every key octet (parity): keys are compared without them
-        held = bytes(x & 0xFE for x in (bytes(pw[:16]) if len(pw) else bytes(16))) == bytes(x & 0xFE for x in key)
-        if len(pw) and len(pw) < 16:
-            if real != "exc ValueError":
-                ck.fail("short-password-accepted", "authenticate(%r) on %s -> %s" % (bytes(pw), type(t).__name__, real),
-                        {"password": bytes(pw).hex()})
-        elif real != ("ok true" if held else "ok false"):
-            ck.fail("auth-wrong-verdict", "%s tag holds key %s, authenticate(%s) -> %s"
-                    % (type(t).__name__, key.hex(), bytes(pw).hex(), real),
-                    {"product": type(t).__name__, "tag_key": key.hex(), "password": bytes(pw).hex(), "challenge": rc.hex()})
-        if t.is_authenticated != (real == "ok true"):
-            ck.fail("auth-status-differs", "is_authenticated=%r after authenticate -> %s" % (t.is_authenticated, real),
-                    {"tag_key": key.hex(), "password": bytes(pw).hex()})
-        rs = arrived(air, 5)
-        if lite_s:
-            add("lite-s-authenticate", "lites.auth %s %s %s %s" % (hx(idm), hx(pw), hx(rc), " ".join(rs)), real,
-                ("lites.auth", bytes(pw), key, rc), not held, "auth:lite-s:" + kind)
-        else:
-            m = real + (" %s %s" % (hx(t._sk), hx(t._iv)) if real == "ok true" else "")
-            add("lite-authenticate", "lite.auth %s %s %s %s %s" % (hx(idm), hx(pw), hx(rc), rs[0], rs[1]), m,
-                ("lite.auth", bytes(pw), key, rc), not held, "auth:lite:" + kind)
-        if len(pw) == 0 or len(pw) >= 16:
-            cmds = [c for (_, c, _) in air.trace]
-            add("lite-authenticate", "lite.cmds %s %s %s" % (hx(idm), hx(pw), hx(rc)),
-                "ok %s %s %s" % (hx(bytes([32, 8]) + idm + bytes([1, 9, 0, 1, 0x80, 0x87]) + F.key_block(bytes(pw[:16]) if len(pw) else bytes(16))),
-                                 hx(cmds[0]), hx(cmds[1])), ("lite.cmds", bytes(pw), rc), True, "auth:commands")
+        with Guard(ck, 'felica-authenticate', None):
+            lite_s = bool(i % 2)
+            key = rb(16) if i % 6 else bytes(16)
+            kind = ["right", "right-long", "wrong", "wrong-1bit", "empty", "short"][rng.randrange(6)] if i > 12 else \
+                ["right", "right-long", "wrong", "wrong-1bit", "empty", "short"][i % 6]
+            if kind == "right":
+                pw = key
+            elif kind == "right-long":
+                pw = key + rb(rng.randrange(1, 9))
+            elif kind == "wrong":
+                pw = rb(16 + rng.randrange(0, 4))
+            elif kind == "wrong-1bit":
+                b = rng.randrange(128)
+                pw = bytes(x ^ (1 << (b % 8) if j == b // 8 else 0) for j, x in enumerate(key))
+            elif kind == "empty":
+                pw = b""
+            else:
+                pw = rb(rng.randrange(1, 16))
+            if rng.random() < 0.3:
+                pw = bytearray(pw)
+            tag, air, t = fresh(lite_s, F.key_block(key))
+            rc = rb(16)
+            real = auth_real(t, pw, rc)
+            # DES ignores the least significant bit of every key octet (parity): keys are compared without them
+            held = bytes(x & 0xFE for x in (bytes(pw[:16]) if len(pw) else bytes(16))) == bytes(x & 0xFE for x in key)
+            if len(pw) and len(pw) < 16:
+                if real != "exc ValueError":
+                    ck.fail("short-password-accepted", "authenticate(%r) on %s -> %s" % (bytes(pw), type(t).__name__, real),
+                            {"password": bytes(pw).hex()})
+            elif real != ("ok true" if held else "ok false"):
+                ck.fail("auth-wrong-verdict", "%s tag holds key %s, authenticate(%s) -> %s"
+                        % (type(t).__name__, key.hex(), bytes(pw).hex(), real),
+                        {"product": type(t).__name__, "tag_key": key.hex(), "password": bytes(pw).hex(), "challenge": rc.hex()})
+            if t.is_authenticated != (real == "ok true"):
+                ck.fail("auth-status-differs", "is_authenticated=%r after authenticate -> %s" % (t.is_authenticated, real),
+                        {"tag_key": key.hex(), "password": bytes(pw).hex()})
+            rs = arrived(air, 5)
+            if lite_s:
+                add("lite-s-authenticate", "lites.auth %s %s %s %s" % (hx(idm), hx(pw), hx(rc), " ".join(rs)), real,
+                    ("lites.auth", bytes(pw), key, rc), not held, "auth:lite-s:" + kind)
+            else:
+                m = real + (" %s %s" % (hx(t._sk), hx(t._iv)) if real == "ok true" else "")
+                add("lite-authenticate", "lite.auth %s %s %s %s %s" % (hx(idm), hx(pw), hx(rc), rs[0], rs[1]), m,
+                    ("lite.auth", bytes(pw), key, rc), not held, "auth:lite:" + kind)
+            if len(pw) == 0 or len(pw) >= 16:
+                cmds = [c for (_, c, _) in air.trace]
+                add("lite-authenticate", "lite.cmds %s %s %s" % (hx(idm), hx(pw), hx(rc)),
+                    "ok %s %s %s" % (hx(bytes([32, 8]) + idm + bytes([1, 9, 0, 1, 0x80, 0x87]) + F.key_block(bytes(pw[:16]) if len(pw) else bytes(16))),
+                                     hx(cmds[0]), hx(cmds[1])), ("lite.cmds", bytes(pw), rc), True, "auth:commands")
 
     # ---------------- authenticate: responses modified in transit
     nbase = 6 if T else 2
     for lite_s in (False, True):
         for base in range(nbase):
-            key = rb(16)
-            wrong = base % 3 == 2                       # a tag that does NOT hold the key: must never become True
-            tagkey = rb(16) if wrong else key
-            rc = rb(16)
-            tag, air, t = fresh(lite_s, F.key_block(tagkey))
-            auth_real(t, key, rc)
-            clean = [r for (_, _, r) in air.trace]
-            for xi, frame in enumerate(clean):
-                # quick tier: every bit of the two MAC-carrying read responses of the first base case, samples elsewhere
-                budget = (8 * len(frame)) if (T or (base == 0 and xi in (1, 4))) else 20
-                for kind, fn, pos in response_masks(rng, frame, T, budget):
-                    tag, air, t = fresh(lite_s, F.key_block(tagkey), Tamper({("r", xi): fn}))
-                    real = auth_real(t, key, rc)
-                    what = "%s holds %s key, response %d modified (%s at %s): authenticate -> %s" % (
-                        type(t).__name__, "another" if wrong else "the", xi, kind, sorted(pos), real)
-                    rep = {"product": type(t).__name__, "tag_key": tagkey.hex(), "password": key.hex(), "challenge": rc.hex(),
-                           "exchange": xi, "clean_response": frame.hex(), "arrived": air.trace[xi][2].hex() if len(air.trace) > xi else None}
-                    if real.startswith("exc") and real[4:] in INTERNAL:
-                        ck.fail("lite-s-auth-mac-failure-typeerror" if real == "exc TypeError" and lite_s and xi == 4
-                                else "auth-internal-exception", what, rep)
-                    if real == "ok true" and wrong:
-                        ck.fail("auth-forged", what, rep)
-                    # octets 13.. of a read response are block data, the MAC is the first half of the last block
-                    if real == "ok true" and xi in (1, 4) and any(13 <= p < len(frame) - 8 for p in pos):
-                        ck.fail("auth-tampered-mac-accepted", what, rep)
-                    rs = arrived(air, 5)
-                    if lite_s:
-                        add("lite-s-authenticate", "lites.auth %s %s %s %s" % (hx(idm), hx(key), hx(rc), " ".join(rs)), real,
-                            ("lites.auth", key, tagkey, rc, xi, air.trace[xi][2] if len(air.trace) > xi else None), True,
-                            "auth:lite-s:tamper:%s:%s" % (kind, real[:8]))
-                    else:
-                        m = real + (" %s %s" % (hx(t._sk), hx(t._iv)) if real == "ok true" else "")
-                        add("lite-authenticate", "lite.auth %s %s %s %s %s" % (hx(idm), hx(key), hx(rc), rs[0], rs[1]), m,
-                            ("lite.auth", key, tagkey, rc, xi, air.trace[xi][2] if len(air.trace) > xi else None), True,
-                            "auth:lite:tamper:%s:%s" % (kind, real[:8]))
+            with Guard(ck, 'felica-authenticate-tamper', None):
+                key = rb(16)
+                wrong = base % 3 == 2                       # a tag that does NOT hold the key: must never become True
+                tagkey = rb(16) if wrong else key
+                rc = rb(16)
+                tag, air, t = fresh(lite_s, F.key_block(tagkey))
+                auth_real(t, key, rc)
+                clean = [r for (_, _, r) in air.trace]
+                for xi, frame in enumerate(clean):
+                    # quick tier: every bit of the two MAC-carrying read responses of the first base case, samples elsewhere
+                    budget = (8 * len(frame)) if (T or (base == 0 and xi in (1, 4))) else 20
+                    for kind, fn, pos in response_masks(rng, frame, T, budget):
+                        with Guard(ck, 'felica-authenticate-tamper', None):
+                            tag, air, t = fresh(lite_s, F.key_block(tagkey), Tamper({("r", xi): fn}))
+                            real = auth_real(t, key, rc)
+                            what = "%s holds %s key, response %d modified (%s at %s): authenticate -> %s" % (
+                                type(t).__name__, "another" if wrong else "the", xi, kind, sorted(pos), real)
+                            rep = {"product": type(t).__name__, "tag_key": tagkey.hex(), "password": key.hex(), "challenge": rc.hex(),
+                                   "exchange": xi, "clean_response": frame.hex(), "arrived": air.trace[xi][2].hex() if len(air.trace) > xi else None}
+                            if real.startswith("exc") and real[4:] in INTERNAL:
+                                ck.fail("lite-s-auth-mac-failure-typeerror" if real == "exc TypeError" and lite_s and xi == 4
+                                        else "auth-internal-exception", what, rep)
+                            if real == "ok true" and wrong:
+                                ck.fail("auth-forged", what, rep)
+                            # octets 13.. of a read response are block data, the MAC is the first half of the last block
+                            if real == "ok true" and xi in (1, 4) and any(13 <= p < len(frame) - 8 for p in pos):
+                                ck.fail("auth-tampered-mac-accepted", what, rep)
+                            rs = arrived(air, 5)
+                            if lite_s:
+                                add("lite-s-authenticate", "lites.auth %s %s %s %s" % (hx(idm), hx(key), hx(rc), " ".join(rs)), real,
+                                    ("lites.auth", key, tagkey, rc, xi, air.trace[xi][2] if len(air.trace) > xi else None), True,
+                                    "auth:lite-s:tamper:%s:%s" % (kind, real[:8]))
+                            else:
+                                m = real + (" %s %s" % (hx(t._sk), hx(t._iv)) if real == "ok true" else "")
+                                add("lite-authenticate", "lite.auth %s %s %s %s %s" % (hx(idm), hx(key), hx(rc), rs[0], rs[1]), m,
+                                    ("lite.auth", key, tagkey, rc, xi, air.trace[xi][2] if len(air.trace) > xi else None), True,
+                                    "auth:lite:tamper:%s:%s" % (kind, real[:8]))
 
     # ---------------- commands modified or lost in transit (oracle only)
     for lite_s in (False, True):
-        key, rc = rb(16), rb(16)
-        tag, air, t = fresh(lite_s, F.key_block(key))
-        auth_real(t, key, rc)
-        cmds = [c for (_, c, _) in air.trace]
-        for xi, frame in enumerate(cmds):
-            bits = list(range(8 * len(frame)))
-            if not T:
-                bits = rng.sample(bits, 16)
-            for b in bits + [None]:
-                fn = (lambda f: None) if b is None else xor_mask(bit_mask(len(frame), b))
-                tag, air, t = fresh(lite_s, F.key_block(key), Tamper({("c", xi): fn}))
-                real = auth_real(t, key, rc)
-                ck.case(("auth.cmd", lite_s, xi, b, key, rc), True, "auth:command-tamper:" + real[:8])
-                if real.startswith("exc") and real[4:] in INTERNAL:
-                    ck.fail("lite-s-auth-mac-failure-typeerror" if real == "exc TypeError" and lite_s else "auth-internal-exception",
-                            "%s: command %d modified (bit %s): authenticate -> %s" % (type(t).__name__, xi, b, real),
-                            {"product": type(t).__name__, "tag_key": key.hex(), "password": key.hex(), "challenge": rc.hex(),
-                             "exchange": xi, "command_bit": b})
+        with Guard(ck, 'felica-command-tamper', None):
+            key, rc = rb(16), rb(16)
+            tag, air, t = fresh(lite_s, F.key_block(key))
+            auth_real(t, key, rc)
+            cmds = [c for (_, c, _) in air.trace]
+            for xi, frame in enumerate(cmds):
+                bits = list(range(8 * len(frame)))
+                if not T:
+                    bits = rng.sample(bits, 16)
+                for b in bits + [None]:
+                    with Guard(ck, 'felica-command-tamper', None):
+                        fn = (lambda f: None) if b is None else xor_mask(bit_mask(len(frame), b))
+                        tag, air, t = fresh(lite_s, F.key_block(key), Tamper({("c", xi): fn}))
+                        real = auth_real(t, key, rc)
+                        ck.case(("auth.cmd", lite_s, xi, b, key, rc), True, "auth:command-tamper:" + real[:8])
+                        if real.startswith("exc") and real[4:] in INTERNAL:
+                            ck.fail("lite-s-auth-mac-failure-typeerror" if real == "exc TypeError" and lite_s else "auth-internal-exception",
+                                    "%s: command %d modified (bit %s): authenticate -> %s" % (type(t).__name__, xi, b, real),
+                                    {"product": type(t).__name__, "tag_key": key.hex(), "password": key.hex(), "challenge": rc.hex(),
+                                     "exchange": xi, "command_bit": b})
 
     # ---------------- read_with_mac
     nbase = 10 if T else 3
     for base in range(nbase):
-        lite_s = bool(base % 2)
-        key, rc = rb(16), rb(16)
-        tag, air, t = fresh(lite_s, F.key_block(key))
-        if auth_real(t, key, rc) != "ok true":
-            continue
-        sk, iv = bytes(t._sk), bytes(t._iv)
-        nblk = [1, 2, 3, 1, 2, 3, 1, 2, 3, 2][base % 10]
-        blocks = [rng.choice(list(range(0, 14)) + [0x82, 0x86]) for _ in range(nblk)]
-        authentic = b"".join(bytes(tag.b[n]) for n in blocks)
-        x0 = air.n
-        real = outcome(lambda: t.read_with_mac(*blocks), show_opt)
-        frame = air.trace[x0][2]
-        cmd = air.trace[x0][1]
-        if real != "ok " + hx(authentic):
-            ck.fail("read-with-mac-clean-fails", "read_with_mac%r on an untouched channel -> %s" % (tuple(blocks), real),
-                    {"tag_key": key.hex(), "challenge": rc.hex(), "blocks": blocks})
-        add("read_with_mac", "lite.rwmcmd %s %s" % (hx(idm), hx(bytes(blocks))), "ok " + hx(cmd), ("rwmcmd", tuple(blocks)), True, "read:command")
-        add("read_with_mac", "lite.rwm %s %s %s %s %s" % (hx(idm), hx(sk), hx(iv), hx(bytes(blocks)), hx(frame)), real,
-            ("rwm", key, rc, tuple(blocks), frame), False, "read:clean")
-        mods = list(response_masks(rng, frame, T, 8 * len(frame) if (T or base < 1) else 64))
-        dlen = 16 * nblk
-        if nblk >= 2:                                      # whole blocks exchanged / duplicated: more than one group changes
-            def swap(f, dlen=dlen):
-                return f[:13] + f[29:45] + f[13:29] + f[45:]
-
-            def dup(f):
-                return f[:13] + f[29:45] + f[29:]
-            mods.append(("swap", swap, set(range(13, 45)) if authentic[0:16] != authentic[16:32] else set()))
-            mods.append(("duplicate", dup, set(range(13, 29)) if authentic[0:16] != authentic[16:32] else set()))
-        for cut in (1, 8, 16, 17):                          # truncated / extended frames (length octet adjusted)
-            mods.append(("truncate", lambda f, cut=cut: bytes([len(f) - cut]) + f[1:len(f) - cut], None))
-        mods.append(("extend", lambda f: bytes([len(f) + 16]) + f[1:] + bytes(16), None))
-        mods.append(("replay-other-iv", None, None))
-        for kind, fn, pos in mods:
-            if kind == "replay-other-iv":
-                # a correctly MAC'ed response recorded under another challenge is replayed
-                tag2 = F.LiteTag(F.key_block(key), lite_s)
-                for n in tag.b:
-                    if n not in (0x80,):
-                        tag2.b[n] = bytearray(tag.b[n])
-                tag2.b[1] = bytearray(rb(16))
-                tag2.b[0x80] = bytearray(rb(16))
-                old = tag2.command(cmd)
-                fn = lambda f, old=old: old   # noqa
-                pos = set(range(13, 13 + dlen + 8))
-            air.transit = Tamper({("r", air.n): fn})
-            xi = air.n
+        with Guard(ck, 'read-with-mac', None):
+            lite_s = bool(base % 2)
+            key, rc = rb(16), rb(16)
+            tag, air, t = fresh(lite_s, F.key_block(key))
+            if auth_real(t, key, rc) != "ok true":
+                continue
+            sk, iv = bytes(t._sk), bytes(t._iv)
+            nblk = [1, 2, 3, 1, 2, 3, 1, 2, 3, 2][base % 10]
+            blocks = [rng.choice(list(range(0, 14)) + [0x82, 0x86]) for _ in range(nblk)]
+            authentic = b"".join(bytes(tag.b[n]) for n in blocks)
+            x0 = air.n
             real = outcome(lambda: t.read_with_mac(*blocks), show_opt)
-            air.transit = None
-            got = air.trace[xi][2]
-            what = "read_with_mac%r, response modified (%s%s) -> %s" % (tuple(blocks), kind, "" if pos is None else " at %s" % sorted(pos), real[:80])
-            rep = {"product": type(t).__name__, "tag_key": key.hex(), "challenge": rc.hex(), "blocks": blocks,
-                   "clean_response": frame.hex(), "arrived": got.hex(), "authentic_data": authentic.hex()}
-            if real.startswith("exc") and real[4:] in INTERNAL:
-                ck.fail("read-internal-exception", what, rep)
-            if real.startswith("ok ") and real != "ok none":
-                if real != "ok " + hx(authentic):
-                    ck.fail("tampered-read-accepted", what, rep)
-                elif pos is not None and any(13 <= p < 13 + dlen + 8 for p in pos) and got != frame:
-                    ck.fail("tampered-mac-accepted", what, rep)
-            add("read_with_mac", "lite.rwm %s %s %s %s %s" % (hx(idm), hx(sk), hx(iv), hx(bytes(blocks)), hx(got)), real,
-                ("rwm", key, rc, tuple(blocks), got), True, "read:%s:%s" % (kind, real[:7] if real.startswith("ok n") or real.startswith("exc") else "ok data"))
+            frame = air.trace[x0][2]
+            cmd = air.trace[x0][1]
+            if real != "ok " + hx(authentic):
+                ck.fail("read-with-mac-clean-fails", "read_with_mac%r on an untouched channel -> %s" % (tuple(blocks), real),
+                        {"tag_key": key.hex(), "challenge": rc.hex(), "blocks": blocks})
+            add("read_with_mac", "lite.rwmcmd %s %s" % (hx(idm), hx(bytes(blocks))), "ok " + hx(cmd), ("rwmcmd", tuple(blocks)), True, "read:command")
+            add("read_with_mac", "lite.rwm %s %s %s %s %s" % (hx(idm), hx(sk), hx(iv), hx(bytes(blocks)), hx(frame)), real,
+                ("rwm", key, rc, tuple(blocks), frame), False, "read:clean")
+            mods = list(response_masks(rng, frame, T, 8 * len(frame) if (T or base < 1) else 64))
+            dlen = 16 * nblk
+            if nblk >= 2:                                      # whole blocks exchanged / duplicated: more than one group changes
+                def swap(f, dlen=dlen):
+                    return f[:13] + f[29:45] + f[13:29] + f[45:]
+
+                def dup(f):
+                    return f[:13] + f[29:45] + f[29:]
+                mods.append(("swap", swap, set(range(13, 45)) if authentic[0:16] != authentic[16:32] else set()))
+                mods.append(("duplicate", dup, set(range(13, 29)) if authentic[0:16] != authentic[16:32] else set()))
+            for cut in (1, 8, 16, 17):                          # truncated / extended frames (length octet adjusted)
+                mods.append(("truncate", lambda f, cut=cut: bytes([len(f) - cut]) + f[1:len(f) - cut], None))
+            mods.append(("extend", lambda f: bytes([len(f) + 16]) + f[1:] + bytes(16), None))
+            mods.append(("replay-other-iv", None, None))
+            for kind, fn, pos in mods:
+                with Guard(ck, 'read-with-mac-tamper', None):
+                    if kind == "replay-other-iv":
+                        # a correctly MAC'ed response recorded under another challenge is replayed
+                        tag2 = F.LiteTag(F.key_block(key), lite_s)
+                        for n in tag.b:
+                            if n not in (0x80,):
+                                tag2.b[n] = bytearray(tag.b[n])
+                        tag2.b[1] = bytearray(rb(16))
+                        tag2.b[0x80] = bytearray(rb(16))
+                        old = tag2.command(cmd)
+                        fn = lambda f, old=old: old   # noqa
+                        pos = set(range(13, 13 + dlen + 8))
+                    air.transit = Tamper({("r", air.n): fn})
+                    xi = air.n
+                    real = outcome(lambda: t.read_with_mac(*blocks), show_opt)
+                    air.transit = None
+                    got = air.trace[xi][2]
+                    what = "read_with_mac%r, response modified (%s%s) -> %s" % (tuple(blocks), kind, "" if pos is None else " at %s" % sorted(pos), real[:80])
+                    rep = {"product": type(t).__name__, "tag_key": key.hex(), "challenge": rc.hex(), "blocks": blocks,
+                           "clean_response": frame.hex(), "arrived": got.hex(), "authentic_data": authentic.hex()}
+                    if real.startswith("exc") and real[4:] in INTERNAL:
+                        ck.fail("read-internal-exception", what, rep)
+                    if real.startswith("ok ") and real != "ok none":
+                        if real != "ok " + hx(authentic):
+                            ck.fail("tampered-read-accepted", what, rep)
+                        elif pos is not None and any(13 <= p < 13 + dlen + 8 for p in pos) and got != frame:
+                            ck.fail("tampered-mac-accepted", what, rep)
+                    add("read_with_mac", "lite.rwm %s %s %s %s %s" % (hx(idm), hx(sk), hx(iv), hx(bytes(blocks)), hx(got)), real,
+                        ("rwm", key, rc, tuple(blocks), got), True, "read:%s:%s" % (kind, real[:7] if real.startswith("ok n") or real.startswith("exc") else "ok data"))
     # not authenticated
     tag, air, t = fresh(False, bytes(16))
     real = outcome(lambda: t.read_with_mac(1), show_opt)
@@ -464,39 +526,45 @@ def _felica(ck, rng, T, add, rb, D, F, fake_os, tt3_sony):
 
     # ---------------- Lite-S write_with_mac
     for i in range(60 if T else 12):
-        key, rc = rb(16), rb(16)
-        tag, air, t = fresh(True, F.key_block(key))
-        tag.b[0x90][0:3] = rb(3) if i % 3 else bytes([0xFF, 0xFF, 0x00])
-        if auth_real(t, key, rc) != "ok true":
-            ck.fail("auth-wrong-verdict", "FelicaLiteS right key -> not true (write counter %s)" % tag.b[0x90][0:3].hex(),
-                    {"tag_key": key.hex(), "challenge": rc.hex()})
-            continue
-        sk, iv = bytes(t._sk), bytes(t._iv)
-        blk, data = rng.randrange(0, 14), rb(16)
-        x0 = air.n
-        wc = bytes(tag.b[0x90][0:3])
-        mode = i % 4
-        if mode == 3:                                      # the write command is modified on its way: the tag must refuse
-            b = rng.randrange(8 * 14, 8 * 48 + 8 * 11)
-            air.transit = Tamper({("c", x0 + 1): xor_mask(bit_mask(64, b))})
-        before = bytes(tag.b[blk])
-        real = outcome(lambda: t.write_with_mac(data, blk), lambda r: "none")
-        air.transit = None
-        if mode == 3:
-            ck.case(("wwm-tamper", key, rc, blk, data), True, "write:command-tamper:" + real[:9])
-            if bytes(tag.b[blk]) not in (before,) and bytes(tag.b[blk]) != data:
-                ck.fail("tampered-write-stored", "write_with_mac: modified command stored %s" % bytes(tag.b[blk]).hex(), {"bit": b})
-            continue
-        if real != "ok none" or bytes(tag.b[blk]) != data:
-            ck.fail("write-with-mac-refused", "the tag of the manual refuses write_with_mac(%s, %d): %s" % (data.hex(), blk, real),
-                    {"tag_key": key.hex(), "challenge": rc.hex(), "wcnt": wc.hex(), "block": blk, "data": data.hex()})
-        sent = air.trace[x0 + 1][1]
-        add("write_with_mac", "lites.wwm %s %s %s %s %02x %s" % (hx(idm), hx(sk), hx(iv), hx(data), blk, hx(air.trace[x0][2])),
-            "ok " + hx(sent), ("wwm", key, rc, wc, blk, data), True, "write:command")
+        with Guard(ck, 'write-with-mac', None):
+            key, rc = rb(16), rb(16)
+            tag, air, t = fresh(True, F.key_block(key))
+            tag.b[0x90][0:3] = rb(3) if i % 3 else bytes([0xFF, 0xFF, 0x00])
+            if auth_real(t, key, rc) != "ok true":
+                ck.fail("auth-wrong-verdict", "FelicaLiteS right key -> not true (write counter %s)" % tag.b[0x90][0:3].hex(),
+                        {"tag_key": key.hex(), "challenge": rc.hex()})
+                continue
+            sk, iv = bytes(t._sk), bytes(t._iv)
+            blk, data = rng.randrange(0, 14), rb(16)
+            x0 = air.n
+            wc = bytes(tag.b[0x90][0:3])
+            mode = i % 4
+            if mode == 3:                                      # the write command is modified on its way: the tag must refuse
+                b = rng.randrange(8 * 14, 8 * 48 + 8 * 11)
+                air.transit = Tamper({("c", x0 + 1): xor_mask(bit_mask(64, b))})
+            before = bytes(tag.b[blk])
+            real = outcome(lambda: t.write_with_mac(data, blk), lambda r: "none")
+            air.transit = None
+            if mode == 3:
+                ck.case(("wwm-tamper", key, rc, blk, data), True, "write:command-tamper:" + real[:9])
+                if bytes(tag.b[blk]) not in (before,) and bytes(tag.b[blk]) != data:
+                    ck.fail("tampered-write-stored", "write_with_mac: modified command stored %s" % bytes(tag.b[blk]).hex(), {"bit": b})
+                continue
+            if real != "ok none" or bytes(tag.b[blk]) != data:
+                ck.fail("write-with-mac-refused", "the tag of the manual refuses write_with_mac(%s, %d): %s" % (data.hex(), blk, real),
+                        {"tag_key": key.hex(), "challenge": rc.hex(), "wcnt": wc.hex(), "block": blk, "data": data.hex()})
+            if air.n - x0 != 2:
+                ck.fail("tie:c20-write_with_mac", "write_with_mac made %d exchanges, the model reads WCNT and then writes: %r"
+                        % (air.n - x0, [hx(c) for c in air.sent[x0:]]), {"tag_key": key.hex(), "challenge": rc.hex(), "block": blk})
+                continue
+            sent = air.trace[x0 + 1][1]
+            add("write_with_mac", "lites.wwm %s %s %s %s %02x %s" % (hx(idm), hx(sk), hx(iv), hx(data), blk, hx(air.trace[x0][2])),
+                "ok " + hx(sent), ("wwm", key, rc, wc, blk, data), True, "write:command")
     for bad in (rb(15), rb(17)):
-        tag, air, t = fresh(True, bytes(16))
-        real = outcome(lambda: t.write_with_mac(bad, 1), lambda r: "none")
-        add("write_with_mac", "lites.wwm %s %s %s %s 01 -" % (hx(idm), hx(bytes(16)), hx(bytes(8)), hx(bad)), real, ("wwm-bad", len(bad)), True, "write:bad-size")
+        with Guard(ck, 'write-with-mac', None):
+            tag, air, t = fresh(True, bytes(16))
+            real = outcome(lambda: t.write_with_mac(bad, 1), lambda r: "none")
+            add("write_with_mac", "lites.wwm %s %s %s %s 01 -" % (hx(idm), hx(bytes(16)), hx(bytes(8)), hx(bad)), real, ("wwm-bad", len(bad)), True, "write:bad-size")
     tag, air, t = fresh(True, bytes(16))
     real = outcome(lambda: t.write_with_mac(bytes(16), 1), lambda r: "none")
     add("write_with_mac", "lites.wwm %s - - %s 01 -" % (hx(idm), hx(bytes(16))), real, ("wwm-unauth",), True, "write:unauthenticated")
@@ -512,51 +580,116 @@ def _felica(ck, rng, T, add, rb, D, F, fake_os, tt3_sony):
         for lite_s in (False, True):
             for kind in kinds:
                 for old_is_factory in ((False, True) if (rnd == 0 and kind in ("none", "empty", "exact16")) else (False,)):
-                    old = bytes(16) if old_is_factory else rb(16)
-                    pw = {"none": None, "empty": b"", "empty-bytearray": bytearray(), "short": rb(rng.randrange(1, 16)),
-                          "exact16": rb(16), "longer": rb(16 + rng.randrange(1, 9)), "zeros16": bytes(16),
-                          "bytearray": bytearray(rb(16)), "same-as-old": old}[kind]
-                    tag, air, t = fresh(lite_s, F.key_block(old))
-                    tag.b[0x88][3] = 0                   # not NDEF formatted: protect() touches only MC, CKV and CK
-                    name = type(t).__name__
-                    fake_os.next = [rb(16) for _ in range(4)]
-                    pf = rng.choice([0, 0, 1, 14])
-                    real = outcome(lambda: t.protect(pw, protect_from=pf), show_bool)
-                    pwhex = "None" if pw is None else hx(pw)
-                    rep = {"product": name, "tag_key_before": old.hex(), "password": pwhex, "protect_from": pf,
-                           "call": "protect(password=%s)" % ("None" if pw is None else "bytes.fromhex(%r)" % bytes(pw).hex())}
-                    ck.case(("protect", lite_s, kind, old, pwhex), True, "protect:%s:%s:%s" % (name, kind, real[:12]))
-                    keyw = [c for (_, c, _) in air.trace if c and len(c) == 32 and c[1] == 0x08 and c[14:16] == b"\x80\x87"]
-                    if len(keyw) > 1:
-                        ck.fail("protect-key-written-twice", "%s.protect(%s) wrote the key block %d times" % (name, pwhex, len(keyw)), rep)
-                    add("protect", "lite.protect %s %s" % (hx(idm), pwhex),
-                        real if real.startswith("exc") else "ok " + (hx(keyw[0]) if keyw else "none"),
-                        ("lite.protect", lite_s, pwhex), True, "protect:key-command")
-                    if kind == "short":
-                        if real != "exc ValueError" or bytes(tag.b[0x87]) != F.key_block(old) or tag.log:
-                            ck.fail("short-password-accepted", "%s.protect(%s) -> %s, tag writes %r" % (name, pwhex, real, tag.log), rep)
-                        continue
-                    if real != "ok true":
-                        ck.fail("lite-s-protect-bytes-password" if real == "exc AttributeError" and lite_s else "protect-fails",
-                                "%s.protect(%s) on a tag with writable system blocks -> %s" % (name, pwhex, real), rep)
-                        continue
-                    new = old if pw is None else (bytes(pw[:16]) if len(pw) else bytes(16))
-                    if bytes(tag.b[0x87]) != F.key_block(new):
-                        ck.fail("protect-key-not-provisioned" if bytes(tag.b[0x87]) == F.key_block(old) else "protect-key-layout",
-                                "%s.protect(%s) returned True, the tag held key %s before and now holds CK block %s; the key of that "
-                                "password in the manual's layout is %s" % (name, pwhex, old.hex(), bytes(tag.b[0x87]).hex(), F.key_block(new).hex()), rep)
-                    probes = [(old, eff(old) == eff(new)), (b"", eff(new) == bytes(16)), (rb(16), False),
-                              (bytes([new[0] ^ 0x80]) + new[1:], False)]
-                    if pw is not None:
-                        probes = [(pw, True), (bytes(new) + b"tail", True)] + probes
-                    for other, expect in probes:
-                        fake_os.next = [rb(16)]
-                        r2 = outcome(lambda: t.authenticate(other), show_bool)
-                        ck.case(("protect-auth", lite_s, kind, old, pwhex, bytes(other)), True, "protect:then-auth:" + r2)
-                        if r2 != ("ok true" if expect else "ok false"):
-                            ck.fail("protect-then-auth", "%s held key %s, protect(%s) -> True, then authenticate(%s) -> %s, expected %s"
-                                    % (name, old.hex(), pwhex, hx(other), r2, expect), dict(rep, authenticate=hx(other)))
-                    fake_os.next = []
+                    with Guard(ck, 'felica-protect', None):
+                        old = bytes(16) if old_is_factory else rb(16)
+                        pw = {"none": None, "empty": b"", "empty-bytearray": bytearray(), "short": rb(rng.randrange(1, 16)),
+                              "exact16": rb(16), "longer": rb(16 + rng.randrange(1, 9)), "zeros16": bytes(16),
+                              "bytearray": bytearray(rb(16)), "same-as-old": old}[kind]
+                        tag, air, t = fresh(lite_s, F.key_block(old))
+                        tag.b[0x88][3] = 0                   # not NDEF formatted: protect() touches only MC, CKV and CK
+                        name = type(t).__name__
+                        fake_os.next = [rb(16) for _ in range(4)]
+                        pf = rng.choice([0, 0, 1, 14])
+                        real = outcome(lambda: t.protect(pw, protect_from=pf), show_bool)
+                        pwhex = "None" if pw is None else hx(pw)
+                        rep = {"product": name, "tag_key_before": old.hex(), "password": pwhex, "protect_from": pf,
+                               "call": "protect(password=%s)" % ("None" if pw is None else "bytes.fromhex(%r)" % bytes(pw).hex())}
+                        ck.case(("protect", lite_s, kind, old, pwhex), True, "protect:%s:%s:%s" % (name, kind, real[:12]))
+                        keyw = [c for (_, c, _) in air.trace if c and len(c) == 32 and c[1] == 0x08 and c[14:16] == b"\x80\x87"]
+                        if len(keyw) > 1:
+                            ck.fail("protect-key-written-twice", "%s.protect(%s) wrote the key block %d times" % (name, pwhex, len(keyw)), rep)
+                        add("protect", "lite.protect %s %s" % (hx(idm), pwhex),
+                            real if real.startswith("exc") else "ok " + (hx(keyw[0]) if keyw else "none"),
+                            ("lite.protect", lite_s, pwhex), True, "protect:key-command")
+                        if kind == "short":
+                            if real != "exc ValueError" or bytes(tag.b[0x87]) != F.key_block(old) or tag.log:
+                                ck.fail("short-password-accepted", "%s.protect(%s) -> %s, tag writes %r" % (name, pwhex, real, tag.log), rep)
+                            continue
+                        if real != "ok true":
+                            ck.fail("lite-s-protect-bytes-password" if real == "exc AttributeError" and lite_s else "protect-fails",
+                                    "%s.protect(%s) on a tag with writable system blocks -> %s" % (name, pwhex, real), rep)
+                            continue
+                        new = old if pw is None else (bytes(pw[:16]) if len(pw) else bytes(16))
+                        if bytes(tag.b[0x87]) != F.key_block(new):
+                            ck.fail("protect-key-not-provisioned" if bytes(tag.b[0x87]) == F.key_block(old) else "protect-key-layout",
+                                    "%s.protect(%s) returned True, the tag held key %s before and now holds CK block %s; the key of that "
+                                    "password in the manual's layout is %s" % (name, pwhex, old.hex(), bytes(tag.b[0x87]).hex(), F.key_block(new).hex()), rep)
+                        probes = [(old, eff(old) == eff(new)), (b"", eff(new) == bytes(16)), (rb(16), False),
+                                  (bytes([new[0] ^ 0x80]) + new[1:], False)]
+                        if pw is not None:
+                            probes = [(pw, True), (bytes(new) + b"tail", True)] + probes
+                        for other, expect in probes:
+                            fake_os.next = [rb(16)]
+                            r2 = outcome(lambda: t.authenticate(other), show_bool)
+                            ck.case(("protect-auth", lite_s, kind, old, pwhex, bytes(other)), True, "protect:then-auth:" + r2)
+                            if r2 != ("ok true" if expect else "ok false"):
+                                ck.fail("protect-then-auth", "%s held key %s, protect(%s) -> True, then authenticate(%s) -> %s, expected %s"
+                                        % (name, old.hex(), pwhex, hx(other), r2, expect), dict(rep, authenticate=hx(other)))
+                        fake_os.next = []
+
+
+# ------------------------------------------------------------------------------------------------ histories
+def _histories(ck, rng, T, add, H, det_os):
+    """sequences of calls on one tag object (sessions, counters, multi-block reads): see c20_hist.py"""
+    def one(h, clean, kind):
+        run = H.Run(h, det_os)
+        H.judge(ck, run, clean)
+        results = [s["result"] for s in run.steps]
+        add("history", h.line(), run.reply(), ("hist", h.line()), True,
+            "history:%s:%s" % (kind, "auth-true" if "true" in results else "no-auth"))
+        return run
+
+    ck.notes.append("session of an earlier authentication %s when a new authentication starts (model parameter forget=%s)"
+                    % (("is forgotten", True) if H.probe(det_os) else ("is kept (finding stale-session-after-failed-auth)", False)))
+    hs = [(h, 8 if T else 2, "calls") for h in H.generate(rng, T)]
+    hs += [(h, 0, "replay") for h in H.replay_histories(rng, T, det_os)]
+    for h, budget, kind in hs:
+        with Guard(ck, "history", h.describe):
+            clean = one(h, None, kind)
+            if budget and not h.rules:
+                for rules, label in H.tamper_rules(rng, T, clean, budget):
+                    h2 = h.with_rules(rules, h.label + "; " + label)
+                    with Guard(ck, "history-tamper", h2.describe):
+                        one(h2, clean, "tamper")
+    retry_base = [h for h, _, _ in hs if (h.label, h.lite_s) in (("pattern A W A", True), ("pattern A R A R", False))]
+    retry_base += [h for h, _, _ in hs if T and h.label in ("pattern T A W A", "pattern A W P W A", "pattern A R1 R2 R3 R4 R5")]
+    for h in retry_base:
+        with Guard(ck, "history-retry", h.describe):
+            clean = H.Run(h, det_os)
+            for rules, label in H.retry_rules(clean):
+                h2 = h.with_rules(rules, h.label + "; " + label)
+                with Guard(ck, "history-retry", h2.describe):
+                    one(h2, clean, "retry")
+    for line, reply, kind, status in H.card_cases(rng, T):
+        add("card-mirror", line, reply, ("card", line), True,
+            "mirror:card:%s:%s" % (kind, "no-answer" if status is None else status.hex()))
+    for h in H.read_histories(rng, T):
+        with Guard(ck, "history-read", h.describe):
+            clean = one(h, None, "read")
+            for rules, label in H.read_tamper_rules(rng, T, clean):
+                h2 = h.with_rules(rules, h.label + "; " + label)
+                with Guard(ck, "history-read-tamper", h2.describe):
+                    one(h2, clean, "read-tamper")
+
+
+def _entropy(ck, F, tt3_sony):
+    """with the REAL entropy source: the challenges of successive authenticate() calls on one tag object and
+    on different objects are all different (2^-128 per pair otherwise) and 16 octets are drawn per call"""
+    seen = {}
+    for lite_s in (False, True):
+        tag = F.LiteTag(F.key_block(bytes(range(16))), lite_s)
+        air, t = F.activate(tag)
+        for i in range(6):
+            x0 = air.n
+            r = outcome(lambda: t.authenticate(bytes(range(16)) if i % 2 == 0 else bytes(16)), show_bool)
+            rcw = [c[16:32] for c in air.sent[x0:] if len(c) == 32 and c[1] == 0x08 and c[14:16] == b"\x80\x80"]
+            ck.case(("entropy", lite_s, i), True, "auth:real-urandom:" + r)
+            if len(rcw) != 1 or rcw[0] in seen or len(set(rcw[0])) < 4:
+                ck.fail("auth-challenge-reused", "%s: authenticate() call %d wrote the challenge(s) %s to the RC block; "
+                        "challenges of earlier calls: %s" % (type(t).__name__, i, [c.hex() for c in rcw], [c.hex() for c in seen]),
+                        {"product": type(t).__name__, "call": i, "rc_blocks": [c.hex() for c in rcw]})
+            for c in rcw:
+                seen[c] = True
 
 
 # ------------------------------------------------------------------------------------------------ NTAG21x
@@ -574,124 +707,173 @@ def _ntag(ck, rng, T, add, rb, N):
         return "E0"
 
     for i in range(600 if T else 120):
-        prod = products[i % len(products)]
-        pwd, pack = rb(4), rb(2)
-        if i % 11 == 0:
-            pwd, pack = b"\xFF\xFF\xFF\xFF", b"\x00\x00"
-        tag = N.NtagTag(prod, pwd, pack, auth0=rng.choice([0xFF, 4, 0]), prot=rng.random() < 0.3)
-        kind = ["right", "right-long", "wrong-pwd", "wrong-pack", "wrong-1bit", "empty", "short"][i % 7]
-        if kind == "right":
-            pw = pwd + pack
-        elif kind == "right-long":
-            pw = pwd + pack + rb(rng.randrange(1, 6))
-        elif kind == "wrong-pwd":
-            pw = rb(4) + pack
-        elif kind == "wrong-pack":
-            pw = pwd + rb(2)
-        elif kind == "wrong-1bit":
-            b = rng.randrange(48)
-            pw = bytes(x ^ (1 << (b % 8) if j == b // 8 else 0) for j, x in enumerate(pwd + pack))
-        elif kind == "empty":
-            pw = b""
-        else:
-            pw = rb(rng.randrange(1, 6))
-        if rng.random() < 0.3:
-            pw = bytearray(pw)
-        air, t = N.activate(tag)
-        x0 = air.n
-        real = outcome(lambda: t.authenticate(pw), show_bool)
-        held = key_of(pw) == pwd + pack
-        rep = {"product": prod, "tag_pwd": pwd.hex(), "tag_pack": pack.hex(), "password": bytes(pw).hex()}
-        if len(pw) and len(pw) < 6:
-            if real != "exc ValueError":
-                ck.fail("short-password-accepted", "NTAG21x authenticate(%r) -> %s" % (bytes(pw), real), rep)
-            add("ntag-authenticate", "ntag.auth %s -" % hx(pw), real, ("ntag.auth", bytes(pw), pwd, pack), True, "ntag:short")
-            continue
-        if real != ("ok true" if held else "ok false"):
-            ck.fail("auth-wrong-verdict", "%s holds PWD %s PACK %s, authenticate(%s) -> %s" % (prod, pwd.hex(), pack.hex(), bytes(pw).hex(), real), rep)
-        if t.is_authenticated != (real == "ok true"):
-            ck.fail("auth-status-differs", "is_authenticated=%r after authenticate -> %s" % (t.is_authenticated, real), rep)
-        sent = air.trace[x0][1]
-        add("ntag-authenticate", "ntag.cmd %s" % hx(pw), "ok " + hx(sent), ("ntag.cmd", bytes(pw)), True, "ntag:command")
-        add("ntag-authenticate", "ntag.auth %s %s" % (hx(pw), model_arg(air, x0)), real, ("ntag.auth", bytes(pw), pwd, pack), not held, "ntag:" + kind)
-        add("tag-mirror", "ntag.tag %s %s %s" % (hx(pwd), hx(pack), hx(sent)), "ok " + hx(air.trace[x0][2]), ("ntag.tag", pwd, pack, sent), True, "mirror:ntag")
+        with Guard(ck, 'ntag-authenticate', None):
+            prod = products[i % len(products)]
+            pwd, pack = rb(4), rb(2)
+            if i % 11 == 0:
+                pwd, pack = b"\xFF\xFF\xFF\xFF", b"\x00\x00"
+            tag = N.NtagTag(prod, pwd, pack, auth0=rng.choice([0xFF, 4, 0]), prot=rng.random() < 0.3)
+            kind = ["right", "right-long", "wrong-pwd", "wrong-pack", "wrong-1bit", "empty", "short"][i % 7]
+            if kind == "right":
+                pw = pwd + pack
+            elif kind == "right-long":
+                pw = pwd + pack + rb(rng.randrange(1, 6))
+            elif kind == "wrong-pwd":
+                pw = rb(4) + pack
+            elif kind == "wrong-pack":
+                pw = pwd + rb(2)
+            elif kind == "wrong-1bit":
+                b = rng.randrange(48)
+                pw = bytes(x ^ (1 << (b % 8) if j == b // 8 else 0) for j, x in enumerate(pwd + pack))
+            elif kind == "empty":
+                pw = b""
+            else:
+                pw = rb(rng.randrange(1, 6))
+            if rng.random() < 0.3:
+                pw = bytearray(pw)
+            air, t = N.activate(tag)
+            x0 = air.n
+            real = outcome(lambda: t.authenticate(pw), show_bool)
+            held = key_of(pw) == pwd + pack
+            rep = {"product": prod, "tag_pwd": pwd.hex(), "tag_pack": pack.hex(), "password": bytes(pw).hex()}
+            if len(pw) and len(pw) < 6:
+                if real != "exc ValueError":
+                    ck.fail("short-password-accepted", "NTAG21x authenticate(%r) -> %s" % (bytes(pw), real), rep)
+                add("ntag-authenticate", "ntag.auth %s -" % hx(pw), real, ("ntag.auth", bytes(pw), pwd, pack), True, "ntag:short")
+                continue
+            if real != ("ok true" if held else "ok false"):
+                ck.fail("auth-wrong-verdict", "%s holds PWD %s PACK %s, authenticate(%s) -> %s" % (prod, pwd.hex(), pack.hex(), bytes(pw).hex(), real), rep)
+            if t.is_authenticated != (real == "ok true"):
+                ck.fail("auth-status-differs", "is_authenticated=%r after authenticate -> %s" % (t.is_authenticated, real), rep)
+            sent = air.trace[x0][1]
+            add("ntag-authenticate", "ntag.cmd %s" % hx(pw), "ok " + hx(sent), ("ntag.cmd", bytes(pw)), True, "ntag:command")
+            add("ntag-authenticate", "ntag.auth %s %s" % (hx(pw), model_arg(air, x0)), real, ("ntag.auth", bytes(pw), pwd, pack), not held, "ntag:" + kind)
+            add("tag-mirror", "ntag.tag %s %s %s" % (hx(pwd), hx(pack), hx(sent)), "ok " + hx(air.trace[x0][2]), ("ntag.tag", pwd, pack, sent), True, "mirror:ntag")
 
     # responses modified in transit: every bit of PACK and of the NAK, multi-bit, lost frames
     for i in range(40 if T else 8):
-        prod = products[i % len(products)]
-        pwd, pack = rb(4), rb(2)
-        right = i % 2 == 0
-        pw = pwd + pack if right else (rb(4) + pack)
-        clean = pack if right else N.NAK0
-        mods = [("bit", xor_mask(bit_mask(len(clean), b))) for b in range(8 * len(clean))]
-        for _ in range(10):
-            mods.append(("multibit", xor_mask(bytes(rng.randrange(256) for _ in clean))))
-        mods.append(("append", lambda f: f + bytes([rng.randrange(256)])))
-        mods.append(("truncate", lambda f: f[:-1]))
-        mods.append(("pack-for-nak", lambda f, pw=pw: bytes(pw[4:6])))     # an attacker answers with the expected PACK
-        for lost in (1, 2, 3):
-            mods.append(("lost%d" % lost, None))
-        for kind, fn in mods:
+        with Guard(ck, 'ntag-authenticate-tamper', None):
+            prod = products[i % len(products)]
+            pwd, pack = rb(4), rb(2)
+            right = i % 2 == 0
+            pw = pwd + pack if right else (rb(4) + pack)
+            clean = pack if right else N.NAK0
+            mods = [("bit", xor_mask(bit_mask(len(clean), b))) for b in range(8 * len(clean))]
+            for _ in range(10):
+                mods.append(("multibit", xor_mask(bytes(rng.randrange(256) for _ in clean))))
+            mods.append(("append", lambda f: f + bytes([rng.randrange(256)])))
+            mods.append(("truncate", lambda f: f[:-1]))
+            mods.append(("pack-for-nak", lambda f, pw=pw: bytes(pw[4:6])))     # an attacker answers with the expected PACK
+            for lost in (1, 2, 3):
+                mods.append(("lost%d" % lost, None))
+            for kind, fn in mods:
+                with Guard(ck, 'ntag-authenticate-tamper', None):
+                    tag = N.NtagTag(prod, pwd, pack)
+                    if kind.startswith("lost"):
+                        k = int(kind[4:])
+                        rules = {("r", j): (lambda f: None) for j in range(k)}
+                    else:
+                        rules = {("r", 0): fn}
+                    air, t = N.activate(tag, Tamper(rules))
+                    real = outcome(lambda: t.authenticate(pw), show_bool)
+                    got = model_arg(air, 0)
+                    rep = {"product": prod, "tag_pwd": pwd.hex(), "tag_pack": pack.hex(), "password": pw.hex(), "modification": kind, "arrived": got}
+                    if real.startswith("exc"):
+                        ck.fail("auth-internal-exception", "NTAG21x authenticate, response %s -> %s" % (kind, real), rep)
+                    arrived_ok = got is not None and got != "E0" and got != "-" and bytes.fromhex(got) == pw[4:6]
+                    if (real == "ok true") != arrived_ok:
+                        ck.fail("ntag-pack-not-compared", "NTAG21x authenticate(%s): arrived %s, verdict %s" % (pw.hex(), got, real), rep)
+                    if got is None:
+                        got = "-"
+                    add("ntag-authenticate", "ntag.auth %s %s" % (hx(pw), got), real, ("ntag.auth", pw, pwd, pack, kind, got), True, "ntag:tamper:" + kind.rstrip("123"))
+
+    # PWD_AUTH answers of EVERY length 0..4 (C20-m3 / r2m4 class: the comparison must include the length): prefixes and
+    # extensions of the expected PACK, NAK octets that equal the first PACK octet, all 256 one-octet answers, and in the
+    # thorough tier all 65536 two-octet answers against one PACK
+    naks = [0x00, 0x01, 0x04, 0x05, 0x06, 0x0A]
+
+    def answer(prod, pwd, pack, pw, frame, kind):
+        with Guard(ck, "ntag-response-length", {"product": prod, "password": bytes(pw).hex(), "arrived": bytes(frame).hex()}):
             tag = N.NtagTag(prod, pwd, pack)
-            if kind.startswith("lost"):
-                k = int(kind[4:])
-                rules = {("r", j): (lambda f: None) for j in range(k)}
-            else:
-                rules = {("r", 0): fn}
-            air, t = N.activate(tag, Tamper(rules))
+            air, t = N.activate(tag, Tamper({("r", 0): (lambda f: bytes(frame))}))
             real = outcome(lambda: t.authenticate(pw), show_bool)
-            got = model_arg(air, 0)
-            rep = {"product": prod, "tag_pwd": pwd.hex(), "tag_pack": pack.hex(), "password": pw.hex(), "modification": kind, "arrived": got}
-            if real.startswith("exc"):
-                ck.fail("auth-internal-exception", "NTAG21x authenticate, response %s -> %s" % (kind, real), rep)
-            arrived_ok = got is not None and got != "E0" and got != "-" and bytes.fromhex(got) == pw[4:6]
-            if (real == "ok true") != arrived_ok:
-                ck.fail("ntag-pack-not-compared", "NTAG21x authenticate(%s): arrived %s, verdict %s" % (pw.hex(), got, real), rep)
-            if got is None:
-                got = "-"
-            add("ntag-authenticate", "ntag.auth %s %s" % (hx(pw), got), real, ("ntag.auth", pw, pwd, pack, kind, got), True, "ntag:tamper:" + kind.rstrip("123"))
+            expected = b"\xFF\xFF\xFF\xFF\x00\x00"[4:6] if len(pw) == 0 else bytes(pw[4:6])
+            good = bytes(frame) == expected
+            rep = {"product": prod, "tag_pwd": pwd.hex(), "tag_pack": pack.hex(), "password": bytes(pw).hex(),
+                   "arrived": bytes(frame).hex(), "kind": kind}
+            if real != ("ok true" if good else "ok false"):
+                ck.fail("ntag-pack-not-compared" if real in ("ok true", "ok false") else "auth-internal-exception",
+                        "NTAG21x authenticate(%s): the %d octet answer %s arrived (expected PACK %s), verdict %s"
+                        % (bytes(pw).hex(), len(frame), bytes(frame).hex() or "<empty>", expected.hex(), real), rep)
+            add("ntag-authenticate", "ntag.auth %s %s" % (hx(pw), hx(frame)), real, ("ntag.len", bytes(pw), bytes(frame)), True,
+                "ntag:length:%d:%s" % (len(frame), kind))
+
+    for i in range(12 if T else 4):
+        prod = products[i % len(products)]
+        for nak in naks + [rng.randrange(256)]:
+            pwd = rb(4)
+            pack = bytes([nak, rng.choice([nak, 0, rng.randrange(256)])])      # the expected PACK begins with the NAK value
+            pw = pwd + pack + (rb(2) if i % 2 else b"")
+            wrong = bytes([pwd[0] ^ 1]) + pwd[1:]
+            for frame, kind in [(b"", "empty"), (bytes([nak]), "nak=pack[0]"), (pack[:1], "pack-prefix"), (pack, "pack"),
+                                (pack + bytes([nak]), "pack+1"), (pack + pack, "pack+2"), (pack + b"\x00\x00", "pack+00"),
+                                (bytes([nak, nak, nak]), "nak*3"), (bytes([pack[0], pack[1] ^ (1 << rng.randrange(8))]), "pack-bit"),
+                                (pack[::-1], "pack-reversed"), (bytes(4), "zeros4"), (bytes([pack[0]]) + bytes([0]), "pack[0]+00")]:
+                answer(prod, pwd, pack, pw, frame, kind)
+            answer(prod, wrong, rb(2), pw, bytes([nak]), "refused:nak=pack[0]")      # the tag does NOT hold the password
+    for nak in naks:                                                                  # factory key: expected PACK 00 00
+        answer(products[0], rb(4), rb(2), b"", bytes([nak]), "empty-password:nak")
+        answer(products[0], b"\xFF\xFF\xFF\xFF", b"\x00\x00", b"", bytes([nak]), "empty-password:nak")
+    pwd, pack = rb(4), rb(2)
+    for v in range(256):
+        answer(products[1], pwd, bytes([v, pack[1]]), pwd + bytes([v, pack[1]]), bytes([v]), "one-octet-all")
+    if T:
+        pw = pwd + pack
+        for v in range(65536):
+            answer(products[2], pwd, pack, pw, v.to_bytes(2, "big"), "two-octets-all")
 
     # protect(password) then authenticate: every kind of password, on tags that hold ANOTHER password
     kinds = ["none", "empty", "empty-bytearray", "short", "exact6", "longer", "default6", "bytearray", "same-as-old"]
     default = b"\xFF\xFF\xFF\xFF\x00\x00"
     for i in range(len(kinds) * (10 if T else 2)):
-        prod = products[i % len(products)]
-        kind = kinds[i % len(kinds)]
-        old = default if (i // len(kinds)) % 2 == 1 and kind in ("none", "empty", "exact6") else rb(6)
-        pw = {"none": None, "empty": b"", "empty-bytearray": bytearray(), "short": rb(rng.randrange(1, 6)), "exact6": rb(6),
-              "longer": rb(6 + rng.randrange(1, 5)), "default6": default, "bytearray": bytearray(rb(6)), "same-as-old": old}[kind]
-        tag = N.NtagTag(prod, old[0:4], old[4:6])
-        air, t = N.activate(tag)
-        rp, pf = rng.random() < 0.5, rng.choice([0, 3, 4, 5, 16, 255, 300])
-        cfg_before = bytes(tag.mem[4 * tag.cfg:4 * tag.cfg + 8]) + bytes(6) + bytes(tag.mem[4 * tag.cfg + 14:4 * tag.cfg + 16])
-        real = outcome(lambda: t.protect(pw, rp, pf), show_bool)
-        pwhex = "None" if pw is None else hx(pw)
-        rep = {"product": prod, "tag_key_before": old.hex(), "password": pwhex, "read_protect": rp, "protect_from": pf}
-        ck.case(("ntag.protect", prod, kind, old, pwhex, rp, pf), True, "ntag:protect:%s:%s" % (kind, real))
-        if kind == "short":
-            if real != "exc ValueError" or tag.pwd + tag.pack != old:
-                ck.fail("short-password-accepted", "%s.protect(%s) -> %s" % (prod, pwhex, real), rep)
-            continue
-        if real != "ok true":
-            ck.fail("protect-fails", "%s.protect(%s, %s, %s) -> %s" % (prod, pwhex, rp, pf, real), rep)
-            continue
-        new = old if pw is None else key_of(pw)
-        if tag.pwd + tag.pack != new:
-            ck.fail("protect-key-not-provisioned" if tag.pwd + tag.pack == old else "protect-key-layout",
-                    "%s held %s, protect(%s) -> True, now holds PWD %s PACK %s, expected %s"
-                    % (prod, old.hex(), pwhex, tag.pwd.hex(), tag.pack.hex(), new.hex()), rep)
-        if pw is not None:
-            written = [c[2:6] for (_, c, _) in air.trace if c and c[0] == 0xA2 and tag.cfg <= c[1] < tag.cfg + 4]
-            add("ntag-authenticate", "ntag.protect %s %02x %04x %s" % (hx(pw), 1 if rp else 0, pf, hx(cfg_before)),
-                "ok " + " ".join(hx(w) for w in written), ("ntag.protect", bytes(pw), rp, pf), True, "ntag:protect-pages")
-        probes = [(old, old == new), (b"", new == default), (rb(6), False), (bytes([new[0] ^ 1]) + new[1:], False),
-                  (new[:5] + bytes([new[5] ^ 0x10]), False)]
-        if pw is not None:
-            probes = [(pw, True), (new + b"xyz", True)] + probes
-        for other, expect in probes:
-            air.sense()
-            r2 = outcome(lambda: t.authenticate(other), show_bool)
-            ck.case(("ntag.protect-auth", kind, old, pwhex, bytes(other)), True, "ntag:protect-then-auth:" + r2)
-            if r2 != ("ok true" if expect else "ok false"):
-                ck.fail("protect-then-auth", "%s held %s, protect(%s) -> True, then authenticate(%s) -> %s, expected %s"
-                        % (prod, old.hex(), pwhex, hx(other), r2, expect), dict(rep, authenticate=hx(other)))
+        with Guard(ck, 'ntag-protect', None):
+            prod = products[i % len(products)]
+            kind = kinds[i % len(kinds)]
+            old = default if (i // len(kinds)) % 2 == 1 and kind in ("none", "empty", "exact6") else rb(6)
+            pw = {"none": None, "empty": b"", "empty-bytearray": bytearray(), "short": rb(rng.randrange(1, 6)), "exact6": rb(6),
+                  "longer": rb(6 + rng.randrange(1, 5)), "default6": default, "bytearray": bytearray(rb(6)), "same-as-old": old}[kind]
+            tag = N.NtagTag(prod, old[0:4], old[4:6])
+            air, t = N.activate(tag)
+            rp, pf = rng.random() < 0.5, rng.choice([0, 3, 4, 5, 16, 255, 300])
+            cfg_before = bytes(tag.mem[4 * tag.cfg:4 * tag.cfg + 8]) + bytes(6) + bytes(tag.mem[4 * tag.cfg + 14:4 * tag.cfg + 16])
+            real = outcome(lambda: t.protect(pw, rp, pf), show_bool)
+            pwhex = "None" if pw is None else hx(pw)
+            rep = {"product": prod, "tag_key_before": old.hex(), "password": pwhex, "read_protect": rp, "protect_from": pf}
+            ck.case(("ntag.protect", prod, kind, old, pwhex, rp, pf), True, "ntag:protect:%s:%s" % (kind, real))
+            if kind == "short":
+                if real != "exc ValueError" or tag.pwd + tag.pack != old:
+                    ck.fail("short-password-accepted", "%s.protect(%s) -> %s" % (prod, pwhex, real), rep)
+                continue
+            if real != "ok true":
+                ck.fail("protect-fails", "%s.protect(%s, %s, %s) -> %s" % (prod, pwhex, rp, pf, real), rep)
+                continue
+            new = old if pw is None else key_of(pw)
+            if tag.pwd + tag.pack != new:
+                ck.fail("protect-key-not-provisioned" if tag.pwd + tag.pack == old else "protect-key-layout",
+                        "%s held %s, protect(%s) -> True, now holds PWD %s PACK %s, expected %s"
+                        % (prod, old.hex(), pwhex, tag.pwd.hex(), tag.pack.hex(), new.hex()), rep)
+            if pw is not None:
+                written = [c[2:6] for (_, c, _) in air.trace if c and c[0] == 0xA2 and tag.cfg <= c[1] < tag.cfg + 4]
+                add("ntag-authenticate", "ntag.protect %s %02x %04x %s" % (hx(pw), 1 if rp else 0, pf, hx(cfg_before)),
+                    "ok " + " ".join(hx(w) for w in written), ("ntag.protect", bytes(pw), rp, pf), True, "ntag:protect-pages")
+            probes = [(old, old == new), (b"", new == default), (rb(6), False), (bytes([new[0] ^ 1]) + new[1:], False),
+                      (new[:5] + bytes([new[5] ^ 0x10]), False)]
+            if pw is not None:
+                probes = [(pw, True), (new + b"xyz", True)] + probes
+            for other, expect in probes:
+                air.sense()
+                r2 = outcome(lambda: t.authenticate(other), show_bool)
+                ck.case(("ntag.protect-auth", kind, old, pwhex, bytes(other)), True, "ntag:protect-then-auth:" + r2)
+                if r2 != ("ok true" if expect else "ok false"):
+                    ck.fail("protect-then-auth", "%s held %s, protect(%s) -> True, then authenticate(%s) -> %s, expected %s"
+                            % (prod, old.hex(), pwhex, hx(other), r2, expect), dict(rep, authenticate=hx(other)))
